@@ -49,6 +49,8 @@ pub enum TypeErrorEnum {
     UnusedFn(String),
     /// A top-level function calls itself recursively.
     RecursiveFnDef(String),
+    /// A struct or enum contains itself (directly or through other types).
+    RecursiveTypeDef(String),
     /// No struct or enum declaration with the specified name exists.
     UnknownStructOrEnum(String),
     /// No struct declaration with the specified name exists.
@@ -136,6 +138,9 @@ impl std::fmt::Display for TypeErrorEnum {
             )),
             TypeErrorEnum::RecursiveFnDef(name) => f.write_fmt(format_args!(
                 "Function '{name}' is declared recursively, which is not supported"
+            )),
+            TypeErrorEnum::RecursiveTypeDef(name) => f.write_fmt(format_args!(
+                "Type '{name}' contains itself, which is not supported"
             )),
             TypeErrorEnum::UnknownStructOrEnum(name) => {
                 f.write_fmt(format_args!("Unknown struct or enum '{name}'"))
@@ -535,7 +540,11 @@ impl UntypedProgram {
         for (struct_name, struct_def) in self.struct_defs.iter() {
             let meta = struct_def.meta;
             let mut fields = Vec::with_capacity(struct_def.fields.len());
-            for (name, ty) in struct_def.fields.iter() {
+            for (i, (name, ty)) in struct_def.fields.iter().enumerate() {
+                if struct_def.fields[..i].iter().any(|(n, _)| n == name) {
+                    let e = TypeErrorEnum::DuplicateStructField(struct_name.clone(), name.clone());
+                    errors.push(Some(TypeError::new(e, meta)));
+                }
                 match ty.as_concrete_type(&top_level_defs) {
                     Ok(ty) => fields.push((name.clone(), ty)),
                     Err(e) => errors.extend(e),
@@ -563,6 +572,62 @@ impl UntypedProgram {
                 });
             }
             enum_defs.insert(enum_name.clone(), EnumDef { variants, meta });
+        }
+
+        // A value of a type that contains itself would be infinitely large:
+        fn field_types(
+            name: &str,
+            struct_defs: &HashMap<String, StructDef>,
+            enum_defs: &HashMap<String, EnumDef>,
+        ) -> Vec<Type> {
+            if let Some(def) = struct_defs.get(name) {
+                def.fields.iter().map(|(_, ty)| ty.clone()).collect()
+            } else if let Some(def) = enum_defs.get(name) {
+                let variants = def.variants.iter();
+                variants.flat_map(|v| v.types().unwrap_or_default()).collect()
+            } else {
+                vec![]
+            }
+        }
+        fn contains_type(
+            ty: &Type,
+            name: &str,
+            struct_defs: &HashMap<String, StructDef>,
+            enum_defs: &HashMap<String, EnumDef>,
+            visited: &mut HashSet<String>,
+        ) -> bool {
+            let fields = match ty {
+                Type::Array(elem, _) | Type::ArrayConst(elem, _) | Type::ArrayConstExpr(elem, _) => {
+                    vec![elem.as_ref().clone()]
+                }
+                Type::Tuple(fields) => fields.clone(),
+                Type::Struct(n) | Type::Enum(n) if n == name => return true,
+                Type::Struct(n) | Type::Enum(n) if visited.insert(n.clone()) => {
+                    field_types(n, struct_defs, enum_defs)
+                }
+                _ => vec![],
+            };
+            let mut fields = fields.iter();
+            fields.any(|ty| contains_type(ty, name, struct_defs, enum_defs, visited))
+        }
+        let type_defs = struct_defs.iter().map(|(n, def)| (n, def.meta));
+        let type_defs = type_defs.chain(enum_defs.iter().map(|(n, def)| (n, def.meta)));
+        let mut recursive_type_defs = vec![];
+        for (name, meta) in type_defs {
+            let mut visited = HashSet::new();
+            let fields = field_types(name, &struct_defs, &enum_defs);
+            let mut fields = fields.iter();
+            if fields.any(|ty| contains_type(ty, name, &struct_defs, &enum_defs, &mut visited)) {
+                let e = TypeErrorEnum::RecursiveTypeDef(name.clone());
+                recursive_type_defs.push(Some(TypeError::new(e, meta)));
+            }
+        }
+        if !recursive_type_defs.is_empty() {
+            // (the checks of the function bodies would not terminate for such types)
+            errors.extend(recursive_type_defs);
+            let mut errors: Vec<TypeError> = errors.into_iter().flatten().collect();
+            errors.sort();
+            return Err(errors);
         }
 
         let mut untyped_defs = Defs::new(&const_types, &struct_defs, &enum_defs);
